@@ -553,6 +553,8 @@ def oracle_axi(run, P="C09"):
         mx = max(mx, cur)
     if mx > wd:
         labels.append("responses_waiting_gt_wdepth")
+    if wd == 1:
+        labels.insert(0, "wdepth_1")        # litex SyncFIFO(depth=1) is a plain register stage whose `level` is a constant 0
     cause = labels[0] if labels else None
 
     def key(base):
